@@ -2888,9 +2888,18 @@ class SEVM:
 
         if follow_true:
             if target not in ex.pgm.valid_jumpdests():
-                raise InvalidJumpDestError(f"Invalid jump destination: 0x{target:X}")
+                if not follow_false:
+                    raise InvalidJumpDestError(
+                        f"Invalid jump destination: 0x{target:X}"
+                    )
 
-            if follow_false:
+                # only the taken side of the branch is an invalid jump: re-execute this
+                # JUMPI under cond_true (where it halts), and keep exploring the other side
+                new_ex_true = self.create_branch(ex, cond_true, ex.pc)
+                new_ex_true.st.push(cond)
+                new_ex_true.st.push(BV(target, size=256))
+
+            elif follow_false:
                 new_ex_true = self.create_branch(ex, cond_true, target)
             else:
                 new_ex_true = ex
